@@ -7,7 +7,7 @@ import re
 
 PLACE = {"@U1@": "usrAAAAAAAAAA1", "@U2@": "usrAAAAAAAAAA2", "@U3@": "usrAAAAAAAAAA3", "@GG@": "grpGG", "@GC@": "grpGC", "@CC@": "chnGC",
          "@GO@": "grpGO", "@PP@": "p2pPP", "@PR@": "p2pPR"}
-SESS_USER = {"in": "@U1@", "att": "@U1@", "peer": "@U2@", "root": "@U3@"}
+SESS_USER = {"in": "@U1@", "att": "@U1@", "peer": "@U2@", "root": "@U3@", "slow": "@U2@", "slow2": "@U1@"}
 SCHEMES = ["basic", "token", "code", "anonymous", "rest"]
 
 
